@@ -40,6 +40,8 @@ func run(c *Ctx) {
 	genEpb(c, add)
 	genH264(c, add)
 	genAsc(c, add)
+	genHevc(c, add)
+	genHevcTrees(c, add)
 
 	lines := make([]string, len(cases))
 	for i, k := range cases {
@@ -59,6 +61,10 @@ func run(c *Ctx) {
 			evalH264(c, k, outs[i])
 		case "ascdec", "ascenc":
 			evalAsc(c, k, outs[i])
+		case "hevcspsdec", "hevcspsenc":
+			evalHevcSps(c, k, outs[i])
+		case "hevcvpsdec", "hevcvpsenc":
+			evalHevcVps(c, k, outs[i])
 		default:
 			c.Find(Finding{Kind: "corr", Class: "unknown-op", Case: k.line, Impl: "?", Model: outs[i]})
 		}
